@@ -8,27 +8,21 @@ sys.path.insert(0, os.path.dirname(os.path.abspath(__file__)))
 import vlib
 from vlib import *
 
-CELLRUN = os.path.join(HARNESS, 'bin', 'cellrun')
+# VERIF_CELLRUN / VERIF_CELLRUN_RACE: use these prebuilt private binaries (built against a scratch
+# copy of the repository named by VERIF_REPO_DIR) instead of building harness/bin/cellrun from /repo.
+CELLRUN = os.environ.get('VERIF_CELLRUN') or os.path.join(HARNESS, 'bin', 'cellrun')
+CELLRUN_RACE = os.environ.get('VERIF_CELLRUN_RACE') or (CELLRUN + '-race')
+PRIVATE = bool(os.environ.get('VERIF_CELLRUN'))
+REPO_DIR = os.environ.get('VERIF_REPO_DIR') or REPO
+DRIVER_COMPONENTS = ['zz_c04']
 KEY_INIT = 'init-states-sized-from-cell0'
-
-
-def targeted_make(pid):
-    """check_theorems() runs a full `make`; while other components are being
-    developed a broken file elsewhere must not fail this check, so build only
-    the closure of Properties/<pid>.vo (the full build is setup's job)."""
-    orig = vlib.coq_make
-    if getattr(orig, '_targeted', False):
-        return
-    def mk(targets=None):
-        return orig(targets or ['Properties/%s.vo' % pid])
-    mk._targeted = True
-    vlib.coq_make = mk
 
 
 def regen_specs():
     """coq/Gen/WrapperSpecs.v <- OW-SPEC blocks of /repo/models (written only when changed)."""
-    build_harness(['cellrun'])
-    out = sh([CELLRUN, '-specs', os.path.join(REPO, 'models')], env=GOENV)
+    if not PRIVATE:
+        build_harness(['cellrun'])
+    out = sh([CELLRUN, '-specs', os.path.join(REPO_DIR, 'models')], env=GOENV)
     path = os.path.join(COQ, 'Gen', 'WrapperSpecs.v')
     try:
         old = open(path).read()
@@ -37,7 +31,7 @@ def regen_specs():
     if old != out:
         with open(path, 'w') as f:
             f.write(out)
-    specs = json.loads(sh([CELLRUN, '-specsjson', os.path.join(REPO, 'models')], env=GOENV))
+    specs = json.loads(sh([CELLRUN, '-specsjson', os.path.join(REPO_DIR, 'models')], env=GOENV))
     return {s['Name']: s for s in specs}
 
 
@@ -91,6 +85,43 @@ def gen_run_cases(rng, models, per_model, backends=('go',), record=1):
             be = backends[(k + j) % len(backends)]
             lines.append(run_line(m, N, nSets, nIn, T, pad, padS, rng.randrange(1 << 30), be, rng.choice([0, 1, 1]),
                                   record if be == 'go' else 0))
+            k += 1
+    return lines
+
+
+MANY_N = [63, 64, 65, 100, 129, 200, 257]
+MANY_MODELS = ['RunoffCoefficient', 'EmcDwc', 'Sum', 'Muskingum', 'GR4J', 'Lag', 'RatingCurvePartition']
+
+
+def coprime_with(rng, n):
+    import math
+    while True:
+        k = rng.randrange(2, max(3, n))
+        if math.gcd(k, n) == 1:
+            return k
+
+
+def divisor_of(rng, n):
+    ds = [d for d in range(2, n) if n % d == 0]
+    return rng.choice(ds) if ds else 1
+
+
+def gen_many_cells(rng, models, ns, record_upto=10 ** 9, per_n=None):
+    """'Many cells' stream: cell counts around and beyond any plausible worker / batch size, for a
+    handful of cheap models (one with table parameters, two with custom states of uniform length);
+    nSets / nIn in {1, N, a divisor, a coprime}; short series."""
+    ms = [m for m in MANY_MODELS if m in models]
+    lines = []
+    k = 0
+    for n in ns:
+        for m in (ms if per_n is None else [ms[(k + j) % len(ms)] for j in range(per_n)]):
+            choices = [1, n, divisor_of(rng, n), coprime_with(rng, n)]
+            nSets = choices[k % 4]
+            nIn = choices[(k // 2 + 1) % 4]
+            T = [3, 5, 7][k % 3]
+            pad = PADS[k % len(PADS)]
+            lines.append(run_line(m, n, nSets, nIn, T, pad, 0, rng.randrange(1 << 30), 'c' if k % 5 == 4 else 'go', 1,
+                                  1 if n <= record_upto else 0))
             k += 1
     return lines
 
@@ -152,11 +183,31 @@ def compare_footprints(r, model_cells, flavour):
     obs = r.get('cells') or []
     if r.get('stray'):
         bad += ['stray: ' + s for s in r['stray']]
+    # goroutines that handled several cells (not the modelled one-goroutine-per-cell structure): their
+    # accesses must lie in the union of those cells' footprints, and each state row must be written back
+    grouped = set()
+    for g in r.get('groups') or []:
+        cs = [c for c in g['cells'] if 0 <= c < L['N']]
+        grouped.update(cs)
+        if len(cs) != len(g['cells']):
+            bad.append('a goroutine slices the outputs / states arrays at cell indices %s outside 0..N-1' % g['cells'])
+        acc = lambda k: set(g['acc'].get(k) or [])
+        for b in 'ISOP':
+            ur = set().union(*[model_cells[c]['R' + b] | model_cells[c]['W' + b] for c in cs]) if cs else set()
+            uw = set().union(*[model_cells[c]['W' + b] for c in cs]) if cs else set()
+            if not (acc('R' + b) | acc('U' + b)) <= ur:
+                bad.append('goroutine of cells %s: reads of %s outside the cells\' footprints' % (cs[:6], b))
+            if not acc('W' + b) <= uw:
+                bad.append('goroutine of cells %s: WRITES to %s outside the cells\' write sets' % (cs[:6], b))
+        if acc('WS') != set().union(*[model_cells[c]['WS'] for c in cs]) if cs else False:
+            bad.append('goroutine of cells %s: state elements written differ from the cells\' state rows' % cs[:6])
     for i in range(L['N']):
         o = obs[i] if i < len(obs) else None
         m = model_cells[i]
         expect_access = bool(m['WO'] or m['WS'] or m['RI'] or m['RP'] or m['RS'])
         if o is None:
+            if i in grouped:
+                continue
             if expect_access:
                 bad.append('cell %d: no goroutine touched its rows but the model expects accesses' % i)
             continue
@@ -218,6 +269,8 @@ def repo_state():
     """fingerprint of /repo's working tree (HEAD + uncommitted changes)"""
     import hashlib
     h = hashlib.sha1()
+    if PRIVATE:
+        return 'private-binaries'
     for cmd in ('git -C /repo rev-parse HEAD', 'git -C /repo diff', 'git -C /repo status --porcelain'):
         h.update(sh(cmd, check=False).encode())
     return h.hexdigest()
@@ -227,6 +280,8 @@ def build_pair(max_tries=4):
     """Build the plain and the -race harness from ONE state of /repo's working tree (other
     checks may be mutating /repo concurrently while this one runs): rebuild until the tree did
     not change between the two builds.  -> (state fingerprint, stable?)"""
+    if PRIVATE:
+        return 'private-binaries', True
     st = None
     for _ in range(max_tries):
         st = repo_state()
